@@ -10,6 +10,8 @@ import (
 	"fmt"
 	"math"
 	"os"
+	"sync"
+	"sync/atomic"
 
 	"github.com/EliCDavis/polyform/modeling"
 	"github.com/EliCDavis/polyform/modeling/triangulation"
@@ -130,8 +132,11 @@ func runOne(c Case) (line, error) {
 	return ln, nil
 }
 
-// Run executes every case of `in` and writes one trace line per case.
-func Run(in, out string) error {
+// Run executes every case of `in` and writes one trace line per case, in case
+// order. With par > 1 the calls are made from par goroutines at the same time
+// (each on its own private input): a triangulation is a function of its input,
+// whatever else the process is doing.
+func Run(in, out string, par int) error {
 	fi, err := os.Open(in)
 	if err != nil {
 		return err
@@ -147,23 +152,51 @@ func Run(in, out string) error {
 	enc := json.NewEncoder(w)
 	sc := bufio.NewScanner(fi)
 	sc.Buffer(make([]byte, 1<<20), 1<<28)
-	n := 0
+	cases := []Case{}
 	for sc.Scan() {
 		if len(sc.Bytes()) == 0 {
 			continue
 		}
 		var c Case
 		if err := json.Unmarshal(sc.Bytes(), &c); err != nil {
-			return fmt.Errorf("case %d: %w", n, err)
+			return fmt.Errorf("case %d: %w", len(cases), err)
 		}
-		ln, err := runOne(c)
-		if err != nil {
-			return fmt.Errorf("case %d: %w", n, err)
+		cases = append(cases, c)
+	}
+	if err := sc.Err(); err != nil {
+		return err
+	}
+	lines := make([]line, len(cases))
+	errs := make([]error, len(cases))
+	if par <= 1 {
+		for n, c := range cases {
+			lines[n], errs[n] = runOne(c)
 		}
-		if err := enc.Encode(ln); err != nil {
+	} else {
+		var wg sync.WaitGroup
+		next := int64(-1)
+		for g := 0; g < par; g++ {
+			wg.Add(1)
+			go func() {
+				defer wg.Done()
+				for {
+					n := int(atomic.AddInt64(&next, 1))
+					if n >= len(cases) {
+						return
+					}
+					lines[n], errs[n] = runOne(cases[n])
+				}
+			}()
+		}
+		wg.Wait()
+	}
+	for n := range cases {
+		if errs[n] != nil {
+			return fmt.Errorf("case %d: %w", n, errs[n])
+		}
+		if err := enc.Encode(lines[n]); err != nil {
 			return err
 		}
-		n++
 	}
-	return sc.Err()
+	return nil
 }
